@@ -1,5 +1,6 @@
 """C01 — cell-integral kernels compute the form's element tensor."""
 import corpus
+import factcorr
 import valprops
 
 EXTRA = [
@@ -55,15 +56,19 @@ def run(v, tier, seed, g):
     cases = list(corpus.PINNED) + EXTRA + corpus.random_cases(seed, 90 if tier == "quick" else 800)
     res = valprops.run_oracle(cases, seed)
     st = valprops.account(v, res, "c01", types={"cell"})
+    # the algebraic core: argument factorisation of every integrand of these forms vs the proved model (Fact.v)
+    fst = factcorr.run(v, cases, seed, "c01")
     if not g["ok"] and not v.violations:
         v.violation("gate", "proof obligations no longer check: " + "; ".join(g["broken"]), {"broken": g["broken"]}, no_input=True)
-    cov = {"checker_cmd": f"./check C01 --tier {tier}", "trusted_base": valprops.ORACLE_TRUST + ["Coq kernel (Flatten.v layout lemmas)"],
+    cov = {"checker_cmd": f"./check C01 --tier {tier}", "trusted_base": valprops.ORACLE_TRUST + ["Coq kernel (Flatten.v layout lemmas; Fact.v argument factorisation)",
+                                                                      "factcorr.py: export of the scalar integrand graph S and of the real factors (argument-free sub-DAGs collapsed to atoms), exact Gaussian-integer evaluation",
+                                                                      "UFL's arity checker for the multilinearity hypothesis (checked per exported integrand by Fact.wfb)"],
            "programs": st["cases"], "disagreements_checked": st["agree"] + st["mismatch"], "evaluations": st["agree"] + st["mismatch"],
-           "distinct_nontrivial": st["distinct"], "oracle": st,
+           "distinct_nontrivial": st["distinct"], "oracle": st, "factorisation_correspondence": fst,
            "rule": "pinned + seeded random forms, every integral given an explicit quadrature degree; one comparison per cell kernel against the independent oracle",
            "axioms_under_property_theorems": g.get("axioms", [])}
     return v.finish("proof", cov, ["the end-to-end statement (kernel = quadrature sum for every form) is NOT a theorem: it is decided per sampled form by the oracle; "
-                                   "proved are the layout/flattening lemmas (Flatten.v) and, per exported kernel, C05/C07/C08/C16/C17/C19"])
+                                   "proved are the layout/flattening lemmas (Flatten.v), the soundness of the argument factorisation for every multilinear integrand (Fact.v, tied to factorization.py by exact correspondence on every integrand of the sampled forms) and, per exported kernel, C05/C07/C08/C16/C17/C19"])
 
 
 def replay(v, payload):
